@@ -287,7 +287,14 @@ pub fn gen_frame_df(rng: &mut TestRng, df: u8) -> Vec<u8> {
                 let t = rng.bits(24) as u32;
                 bits::fix_parity(&mut b, t)
             }
-            _ => {}
+            _ => {
+                // the trailing 24 bits (AP / PI) at an edge value: all-zero, all-one, ...
+                if rng.chance(1, 4) {
+                    let v = edge_value(rng, 24);
+                    let at = n * 8 - 24;
+                    set(&mut b, at, 24, v);
+                }
+            }
         }
     }
     b
